@@ -150,6 +150,11 @@ def step (s : St) (toks : List String) : Option (St × String × String) :=
         | _, _, some v => some (.ctype (if v == "none" then none else some (mtOf v)))
         | _, _, _ => none
       some ({ s with corrupt := ← c }, "ok", "ok")
+  | "mountdcd" :: rest => do
+      -- Mount answered 201: the digest the registry names, if it names one, is the one asked for
+      let h ← kv rest "header"
+      let a := if h == "other" || h == "invalid" then "err" else "ok"
+      some (s, a, a)
   | "longtag" :: rest => do
       -- a tag has at most 128 characters (the spec side of `Spec/Grammar`): longer strings are
       -- refused before anything is sent
